@@ -151,6 +151,8 @@ def solve_pair_oracle(p1, p2, m, skip):
     ts1, e1, _ = GC.solve(p1)
     ts2, e2, _ = GC.solve(p2)
     if (ts1 is None) != (ts2 is None):
+        if common.exc_class(e1 or e2) == 'ConvergenceError':
+            return None      # iteration cap reached on one side only: solver's business (C11), not judged here
         return 'one build solves, the other raises %r' % (e1 or e2)
     if ts1 is None:
         return None if common.exc_class(e1) == common.exc_class(e2) else 'error classes differ: %r vs %r' % (e1, e2)
@@ -227,6 +229,12 @@ def run(ctx):
         prog = pg.any()
         keys = [k for k in NEW if ctx.rng.random() < 0.6]
         cm = {k: NEW[k] for k in keys}
+        if ctx.rng.random() < 0.35:
+            # codes that are substrings / prefixes of other codes (B in BANK, FI in FISC and FIRM, ST in STATE)
+            alt = {'HH': 'B', 'HW': 'FI', 'CAP': 'ST', 'BUS': 'FIRM', 'CB': 'BANK', 'TRE': 'FISC', 'GOV': 'STATE'}
+            for k2 in alt:
+                if ctx.rng.random() < 0.7:
+                    cm[k2] = alt[k2]
         try:
             case, p2, m, skip = rename_case(prog, cm)
         except G.Unsupported:
@@ -276,9 +284,13 @@ def run(ctx):
                 ts1, e1x, _ = GC.solve(singles[j])
                 why = None
                 if (ts1 is None) != (tsj[0] is None):
-                    # a stand-alone economy that does not converge makes the joint model fail as a whole
+                    # a stand-alone economy that does not converge makes the joint model fail as a whole; and
+                    # non-convergence within the iteration cap is the solver's business (C11), not a difference
+                    # between the emitted systems (those are compared by the kernel-evaluated checker)
                     why = None if ts1 is None else 'stand-alone solves but the joint model raises %r' % (tsj[1],)
-                    if why and any(GC.solve(p)[0] is None for p in singles):
+                    if why and (common.exc_class(tsj[1]) == 'ConvergenceError' or any(GC.solve(p)[0] is None for p in singles)):
+                        stats['embed'].setdefault('not_judged_joint_did_not_converge', 0)
+                        stats['embed']['not_judged_joint_did_not_converge'] += 1
                         why = None
                 elif ts1 is not None:
                     why = series_equal_under(ts1, tsj[0], m, set(['t', 'k']))
